@@ -357,6 +357,47 @@ def box_joins(seed, n):
     return out
 
 
+def dis_widen(seed, n):
+    """scripted widenings on the case splits of the disjunctive domains: each operand is a join of
+    1..3 pairwise disjoint boxes (so a disjunctive value keeps 1..3 disjuncts), all combinations of
+    one / several disjuncts on either side; then widening (with or without thresholds) into a third
+    register, inclusion of both operands, and a second widening step with the same right operand"""
+    rng = random.Random(seed)
+    out = []
+    for i in range(n):
+        nv = rng.choice([1, 2, 2])
+        k0, k1 = [(1, 2), (1, 3), (2, 1), (2, 2), (1, 1), (3, 2)][i % 6]
+        pts = sorted(rng.sample(range(-14, 15), 8))
+        pieces = [(pts[2 * j], pts[2 * j + 1] if rng.random() < 0.6 else pts[2 * j]) for j in range(4)]
+        ops = []
+        for r, kk in ((0, k0), (1, k1)):
+            mine = sorted(rng.sample(pieces, kk)) if (r == 0 or rng.random() < 0.4) else None
+            if mine is None:
+                # usually the right operand contains the left one's disjuncts
+                rest = [q for q in pieces if q not in left]
+                mine = sorted(left[:kk] + rng.sample(rest, max(0, kk - len(left))))[:max(kk, 1)]
+            if r == 0:
+                left = mine
+            for j, (lo, hi) in enumerate(mine):
+                t = r if j == 0 else 3
+                ops.append("top %d" % t)
+                ops.append("assume %d 2 C le E 1 -1 0 %d C le E 1 1 0 %d" % (t, lo, -hi))
+                for x in range(1, nv):
+                    c = rng.randint(-3, 3); w = rng.choice([0, 0, 2])
+                    ops.append("assume %d 2 C le E 1 -1 %d %d C le E 1 1 %d %d" % (t, x, c, x, -(c + w)))
+                if j > 0:
+                    ops.append("join %d %d 3" % (r, r))
+        if rng.random() < 0.5:
+            w = "widen 2 %s 1"
+        else:
+            thr = sorted(rng.sample(range(-20, 21), rng.randint(1, 3)))
+            w = "widenthr 2 %%s 1 %d %s" % (len(thr), " ".join(map(str, thr)))
+        ops.append(w % "0"); ops.append("q_leq 0 2"); ops.append("q_leq 1 2"); ops.append("q_csts 2")
+        ops.append(w % "2"); ops.append("q_leq 1 2"); ops.append("q_csts 2")
+        out.append("hist 4 %d ; %s" % (nv, " ; ".join(ops)))
+    return out
+
+
 # x<0 and x>0 in both forms (x <= -1 / x < 0): the sign domain only understands comparisons with 0
 SIGN_CLASSES = ["C lt E 1 1 %d 0", "C le E 1 1 %d 1", "C le E 1 1 %d 0", "C eq E 1 1 %d 0", "C le E 1 -1 %d 0", "C lt E 1 -1 %d 0",
                 "C le E 1 -1 %d 1", "C ne E 1 1 %d 0", None]
